@@ -41,6 +41,10 @@ def run(chk):
     open(path, "w").write("\n".join(scheds) + "\n")
     rc, so, se, to = common.run_child([b, "sched", path], timeout=3000)
     lines = [json.loads(l) for l in so.splitlines() if l.strip().startswith("{")]
+    for l in lines:
+        if "sequential_leak" in l:
+            chk.report("C28:sequential-leak:" + l["sequential_leak"], "a default-config build of %s returns %s when run first and %s after calls with another configuration: state leaks between calls" % (
+                l["sequential_leak"], l["first"], l["again"]), l)
     results = [l for l in lines if "schedule" in l]
     begun = [l["begin"] for l in lines if "begin" in l]
     finished = any(l.get("done") for l in lines)
